@@ -156,6 +156,106 @@ def check_global_writes(ctx, led, rule="C19.globals"):
     return n
 
 
+def written_definitions(ctx, e):
+    """(defining module, name) pairs a global_write effect can refer to."""
+    E = get_effects(ctx)
+    tgt = (e.target or "")
+    if not tgt.startswith("global:"):
+        return set()
+    name = tgt[len("global:") :].split("[")[0].split(".")[0]
+    out = set()
+    info = E.infos.get(e.func.qualname)
+    f = e.func
+    imps = []
+    while f is not None:
+        i_ = E.infos.get(f.qualname)
+        if i_ is not None:
+            imps += getattr(i_, "local_imports", {}).get(name, [])
+        f = f.outer
+    from .srcmodel import PKG
+
+    for level, mod, attr, inode in imps:
+        if not _arms_compatible(e.func.module, inode, e.node):
+            continue
+        target = None
+        if level >= 1 and mod in ctx.repo.modules:
+            target = mod
+        elif level == 0 and mod.startswith(PKG + ".") and mod[len(PKG) + 1 :] in ctx.repo.modules:
+            target = mod[len(PKG) + 1 :]
+        if target is None:
+            continue
+        r = ctx.repo.resolve_global(ctx.repo.modules[target], attr)
+        if r is not None and r[0] == "value":
+            out.add((r[1].name, ctx.ce._defname(r[1], r[2])))
+    if not imps:
+        r = ctx.repo.resolve_global(e.func.module, name)
+        if r is not None and r[0] == "value":
+            out.add((r[1].name, ctx.ce._defname(r[1], r[2])))
+    return out
+
+
+def _arms_compatible(module, import_node, write_node):
+    """Can the conditions dominating a function-local import and those dominating the write hold
+    together?  Decided for conditions over one name compared with constants (the version switch of
+    the interactive builder); anything else counts as compatible."""
+    from . import guards as G
+    from .rules_inter import eval_guard
+
+    fi = G.dominating_facts(module, import_node)
+    fw = G.dominating_facts(module, write_node)
+    names = set(x.id for f in fi for x in ast.walk(f.expr) if isinstance(x, ast.Name))
+    if len(names) != 1:
+        return True
+    (nm,) = names
+    consts = set()
+    for f in fi + fw:
+        for x in ast.walk(f.expr):
+            if isinstance(x, ast.Constant) and isinstance(x.value, (int, float)) and not isinstance(x.value, bool):
+                consts.add(x.value)
+    cands = set(consts)
+    for c in list(consts):
+        cands |= {c - 0.05, c + 0.05}
+    for val in sorted(cands):
+        ok = True
+        for f in fi + fw:
+            try:
+                if bool(eval_guard(f.expr, {nm: val})) != f.pol:
+                    ok = False
+                    break
+            except Exception:
+                continue
+        if ok:
+            return True
+    return False
+
+
+def check_consulted_tables_frozen(ctx, led, prop):
+    """The rules of a property read the package's constant tables from the source, i.e. as they are
+    at import time.  That describes the running program only if no function of the package writes
+    to those tables; a store or in-place mutation of a table this run consulted is reported against
+    the property whose argument rests on it."""
+    E = get_effects(ctx)
+    consulted = set(ctx.ce.consulted)
+    rule = "%s.tables.frozen" % prop
+    hits = 0
+    for e in E.all_effects(kinds=("global_write",)):
+        defs = written_definitions(ctx, e)
+        both = sorted(d for d in defs if d in consulted)
+        if both:
+            hits += 1
+            led.violation(
+                rule,
+                e.key(),
+                e.where(),
+                "%s modifies the shared constant table %s at run time (%s); the rules of %s read that table as a constant, so "
+                "what it decided no longer describes the process after this code has run"
+                % (e.func.qualname, ", ".join("%s.%s" % d for d in both), e.what, prop),
+            )
+    if not hits:
+        led.ok(rule, "constant tables consulted by this check", "cvss/", "%d consulted definitions, none written by any of %d functions" % (len(consulted), len(E.infos)))
+    return hits
+
+
 def check_ambient(ctx, led, rule="C19.ambient"):
     E = get_effects(ctx)
     n_prints = 0
